@@ -41,6 +41,7 @@ class Module:
         self._lines = None
         self.is_pkg = os.path.basename(path) == '__init__.py'
         self.aliases = {}     # local name -> ('module', modname) | ('object', modname, objname)
+        self.star_imports = []   # modules named in 'from X import *'
         self.functions = {}   # name -> FunctionDef (module level, last def wins)
         self.classes = {}     # name -> ClassInfo
         self.assigns = {}     # module-level name -> list of value nodes (in order)
@@ -195,6 +196,9 @@ class Repo:
                     pkg = pkg[:-(st.level - 1)]
                 base = '.'.join(pkg + ([st.module] if st.module else []))
             for a in st.names:
+                if a.name == '*':
+                    m.star_imports.append(base)      # resolved lazily in lookup()
+                    continue
                 local = a.asname or a.name
                 full = base + '.' + a.name
                 if full in self.modules:
@@ -284,6 +288,22 @@ class Repo:
         if name in m.assigns:
             self.consulted.add(m)
             return ('value', m, m.assigns[name][-1])
+        for base in getattr(m, 'star_imports', ()):
+            src = self.modules.get(base)
+            if src is None or name.startswith('_'):
+                continue
+            # from base import *: public names, or those of __all__ when the module defines it
+            allv = src.assigns.get('__all__')
+            if allv:
+                try:
+                    import ast as _ast
+                    if name not in _ast.literal_eval(allv[-1]):
+                        continue
+                except (ValueError, SyntaxError):
+                    pass
+            r = self.lookup(src, name, _depth + 1)
+            if r is not None:
+                return r
         return None
 
     def resolve_expr(self, m, node):
